@@ -63,6 +63,7 @@ type schedT struct {
 	Tickers      []*vchan
 	TickerPeriods []value
 	quiet        map[*value]bool
+	unlockYield  bool // mutex releases are pre-emption points too (verifrt.PreemptAtUnlock)
 	LockOps      int
 }
 
@@ -284,6 +285,9 @@ func (s *schedT) unlock(m *value, read bool) {
 		if t.state == stBlocked && t.waitMu == m {
 			t.state, t.waitMu = stReady, nil
 		}
+	}
+	if s.unlockYield && !s.quiet[m] {
+		s.yield()
 	}
 }
 
